@@ -319,6 +319,20 @@ def extract_old_init(fn, old_attr):
     return val
 
 
+def _stores_only(stmts, dict_path):
+    """every statement (inside for / if nests without else) is `<dict_path>[...] = ...`"""
+    for st in stmts:
+        if isinstance(st, (ast.For, ast.If)) and not st.orelse:
+            if not _stores_only(st.body, dict_path):
+                return False
+            continue
+        if isinstance(st, ast.Assign) and len(st.targets) == 1 and isinstance(st.targets[0], ast.Subscript) \
+                and _path(st.targets[0].value) == dict_path:
+            continue
+        return False
+    return bool(stmts)
+
+
 def _refreshes_only(stmts, self_name):
     """the `else:` of `if not self.out_profile:` may only bring the reused out profile up to date with the incoming one:
     every statement is a local set/list of names, a loop deleting keys of `self.out_profile.__dict__`, or an
@@ -340,9 +354,21 @@ def _refreshes_only(stmts, self_name):
 def extract_init_solve(fn):
     self_name = fn.args.args[0].arg
     roles, out = [], None
+    prev_in = None
     for st in _stmts(fn):
         if isinstance(st, ast.For) and _call_path(st.iter) == f"{self_name}._yield_pre_processors":
             roles.append("pre-processors")
+            continue
+        # `previous = self.in_profile` before the new in profile is created, and afterwards
+        # `if previous is not None: <only stores into self.in_profile.__dict__[...]>` (starting values for the iteration)
+        if isinstance(st, ast.Assign) and len(st.targets) == 1 and _name(st.targets[0]) \
+                and _path(st.value) == f"{self_name}.in_profile" and "in_profile" not in roles:
+            prev_in = st.targets[0].id
+            continue
+        if isinstance(st, ast.If) and not st.orelse and prev_in is not None and "in_profile" in roles \
+                and isinstance(st.test, ast.Compare) and _name(st.test.left) == prev_in and len(st.test.ops) == 1 \
+                and isinstance(st.test.ops[0], ast.IsNot) and isinstance(st.test.comparators[0], ast.Constant) \
+                and st.test.comparators[0].value is None and _stores_only(st.body, f"{self_name}.in_profile.__dict__"):
             continue
         if isinstance(st, ast.Assign) and len(st.targets) == 1:
             t, c = _path(st.targets[0]), _call_path(st.value)
